@@ -1,6 +1,7 @@
 package main
 
 import (
+	"sync"
 	"flag"
 	"regexp"
 	"runtime/pprof"
@@ -41,6 +42,8 @@ func main() {
 			r := solve(ob.Query, sanitize(ob.Name), 30000, true, true)
 			fmt.Printf("%-45s %s %s %.2fs %v\n", ob.Name, r.Status, r.Solver, r.Secs, r.Answers)
 		}
+	case "stability":
+		os.Exit(cmdStability(os.Args[2:]))
 	case "names":
 		os.Exit(cmdNames())
 	case "units":
@@ -265,4 +268,85 @@ func repoDir() string {
 		return d
 	}
 	return "/repo"
+}
+
+// cmdStability re-proves every obligation under several solver seeds (single attempt, quick timeout) and lists the
+// obligations whose best solver needs more than a quarter of the timeout, or that fail, under some seed: these are the
+// ones that turn into alarms on a slower or busier machine (DESIGN §9 "slow queries are the unstable ones").
+func cmdStability(args []string) int {
+	fs := flag.NewFlagSet("stability", flag.ExitOnError)
+	unit := fs.String("unit", "", "substring filter on unit names")
+	nseeds := fs.Int("seeds", 3, "number of seeds (1..n)")
+	timeout := fs.Int("timeout", 15000, "per-query timeout (ms)")
+	fs.Parse(args)
+	w, err := loadWorld(repoDir(), nil)
+	if err != nil {
+		fmt.Println("load error:", err)
+		return 2
+	}
+	bad := 0
+	for _, u := range collectUnits(w) {
+		if *unit != "" && !strings.Contains(u.Name, *unit) {
+			continue
+		}
+		ex, refused := buildVC(w, u)
+		if refused != "" {
+			fmt.Printf("REFUSED %s\n", u.Name)
+			continue
+		}
+		type res struct {
+			ob   *Obligation
+			seed int
+			st   string
+			secs float64
+		}
+		worst := map[string]float64{}
+		fails := map[string][]string{}
+		var mu sync.Mutex
+		for sd := 1; sd <= *nseeds; sd++ {
+			solverSeed = sd
+			work := make(chan int)
+			var wg sync.WaitGroup
+			for k := 0; k < 5; k++ {
+				wg.Add(1)
+				go func() {
+					defer wg.Done()
+					for i := range work {
+						ob := ex.obls[i]
+						r := solve(ex.queryFor(ob), fmt.Sprintf("stab.%s.%d.%d", sanitize(u.Name), ob.Index, sd), *timeout, false, false)
+						mu.Lock()
+						if r.Status != "unsat" {
+							fails[ob.Label] = append(fails[ob.Label], fmt.Sprintf("seed %d: %s", sd, r.Status))
+						} else if r.Secs > worst[ob.Label] {
+							worst[ob.Label] = r.Secs
+						}
+						mu.Unlock()
+					}
+				}()
+			}
+			for i, ob := range ex.obls {
+				if !ob.ExpectSat {
+					work <- i
+				}
+			}
+			close(work)
+			wg.Wait()
+		}
+		_ = res{}
+		for l, f := range fails {
+			fmt.Printf("UNSTABLE %s#%s %v\n", u.Name, l, f)
+			bad++
+		}
+		for l, t := range worst {
+			if t > float64(*timeout)/4000.0 {
+				fmt.Printf("SLOW     %s#%s worst %.1fs\n", u.Name, l, t)
+				bad++
+			}
+		}
+		fmt.Printf("unit %s: %d obligations x %d seeds\n", u.Name, len(ex.obls), *nseeds)
+	}
+	if bad > 0 {
+		return 1
+	}
+	return 0
 }
